@@ -22,7 +22,7 @@ ASSUMPTIONS = ["C20_*_axis is proved over ordered fields; for f64 the premise 's
 def generate(rng, tier):
     # base cases through the correspondence (exact at Q)
     cases = []
-    for _ in range(150 if tier == "quick" else 3000):
+    for _ in range(gen.N(tier, 150, 3000)):
         ext = rng.random() < 0.5
         if rng.random() < 0.5:
             n = rng.choice([2, 3, 5, 9])
@@ -84,7 +84,7 @@ def move_knots(rng, S, xs, keep):
 
 def extra(rng, tier):
     lines, groups = [], []
-    reps = 200 if tier == "quick" else 5000
+    reps = gen.N(tier, 200, 5000)
     for _ in range(reps):
         S = rng.choice(["F", "F", "Q"])
         ext = rng.random() < 0.5
